@@ -461,8 +461,16 @@ func c03Copy(p *Program, r *Report) {
 	var dst, src ssa.CallInstruction
 	optsParam := f.Params[len(f.Params)-1]
 	for _, c := range vas {
-		args := callArgs(c)
-		opt := args[len(args)-1]
+		// the options: the argument (or receiver) of type AccessOptions
+		var opt ssa.Value
+		for _, a := range c.Common().Args {
+			if nt, ok := types.Unalias(derefType(a.Type())).(*types.Named); ok && nt.Obj().Name() == "AccessOptions" {
+				opt = a
+			}
+		}
+		if opt == nil {
+			continue
+		}
 		isParam := false
 		lf, _ := litFields(opt)
 		for _, rt := range terminalRoots(Origins(opt, nil)) {
